@@ -91,7 +91,7 @@ MapDefects(ctx, f, c, x, full) ==
   ELSE LET e == f.msgs[c.t.r.i]
            ei == c.t.r.i
            emc == ctx.mc[ei]
-           cores == [j \in 1..Len(e.fields) |-> FieldCore(ctx, f, emc.full, emc.ef, TRUE, e.fields[j], FALSE)]
+           cores == TLCEval([j \in 1..Len(e.fields) |-> FieldCore(ctx, f, emc.full, emc.ef, TRUE, e.fields[j], FALSE)])
            Shape(j, nm, num) == /\ e.fields[j].name = nm /\ e.fields[j].num = num /\ cores[j].card = 1
                                 /\ e.fields[j].oneof = 0 /\ ~e.fields[j].hd
        IN Tag(ParentName(full) # ParentName(c.t.msg), "map_scope")
@@ -136,7 +136,8 @@ MsgDefects(ctx, f, i) ==
       n == Len(m.fields)
       members(k) == {q \in 1..n : m.fields[q].oneof = k}
       synth(k) == f.syntax = "proto3" /\ Cardinality(members(k)) = 1 /\ (\A q \in members(k) : m.fields[q].p3opt)
-      card(q) == FieldCore(ctx, f, mc.full, mc.ef, m.mapentry, m.fields[q], FALSE).card
+      cards == TLCEval([q \in 1..n |-> FieldCore(ctx, f, mc.full, mc.ef, m.mapentry, m.fields[q], FALSE).card])
+      card(q) == cards[q]
   IN Tag(HasDup(m.rn), "reserved_name_dup")
      \cup Tag(FieldRangeBad(m.rr, m.mset) \/ RangesInverted(m.rr, FALSE), "reserved_range")
      \cup Tag(RangesOverlap(m.rr, FALSE), "reserved_overlap")
